@@ -674,6 +674,8 @@ def expand_font(tokens, name):
         if get_keyword(token) == 'normal':
             # Just ignore 'normal' keywords. Unspecified properties will get
             # their initial token, which is 'normal' for all four here.
+            if not tokens:
+                raise InvalidValues
             continue
 
         if font_style([token]) is not None:
